@@ -142,6 +142,10 @@ fn to_sol(s: &LpSolution<MILPValue>) -> Sol {
     }
 }
 
+pub fn builder_of_pub(c: &LinCase) -> ModelBuilder {
+    builder_of(c)
+}
+
 fn builder_of(c: &LinCase) -> ModelBuilder {
     use rooc::{BuilderConstraint, Expr};
     let mut b = ModelBuilder::new();
